@@ -57,25 +57,35 @@ theorem disconnect_fresh (g : G) (h : List Nat) (s i : Nat) (g' : G) (h' : List 
     · cases hr
   · cases hr
 
-/-- **`remove_child_interface`: the parent handle reports what a fresh lookup reports** (after the repair). -/
-theorem removeChild_fresh (g : G) (h : List Nat) (p c : Nat) (g' : G) (h' : List Nat)
-    (hrun : removeChild g h p c = .ok (g', h'))
-    (hp : (cpDel g c false).contains p = false)
+/-- fresh lookup after an arbitrary deletion set `D` that contains, among the interfaces of `s`, exactly `c` -/
+theorem fresh_after_minus (g : G) (s c : Nat) (D h : List Nat) (hs : D.contains s = false)
+    (hD : ∀ y ∈ freshIfs g s, y ∈ D ↔ y = c)
+    (hh : ∀ y, y ∈ h ↔ y ∈ freshIfs g s) :
+    ∀ y, y ∈ h.filter (fun z => z != c) ↔ y ∈ freshIfs (g.minus D) s := by
+  intro y
+  have e : freshIfs (g.minus D) s = (freshIfs g s).filter (fun y => !D.contains y) := nbrs_minus g D s _ _ hs
+  rw [e]
+  simp only [List.mem_filter, hh y, bne_iff_ne, ne_eq, Bool.not_eq_true', List.contains_eq_mem, decide_eq_false_iff_not]
+  constructor
+  · rintro ⟨hy, hne⟩; exact ⟨hy, fun hm => hne ((hD y hy).mp hm)⟩
+  · rintro ⟨hy, hn⟩; exact ⟨hy, fun he => hn ((hD y hy).mpr he)⟩
+
+/-- what `remove_child_interface(c)` deletes: the port and link of a connected child, then the child with its link -/
+def childDel (g : G) (c : Nat) : List Nat := (deepIfs g [c]).flatMap (discDel g) ++ cpDel g c false
+
+theorem removeChild_closed (g : G) (h : List Nat) (p c : Nat) (hk : g.kind? p = some kDedicatedPort) (hc : g.has c = true)
+    (h1 : SepDiscSeq g [] (deepIfs g [c]) = true) (h2 : Sep g ((deepIfs g [c]).flatMap (discDel g)) c false = true) :
+    removeChild g h p c = .ok (g.minus (childDel g c), h.filter (fun x => x != c)) := by
+  simp only [removeChild, hk, beq_self_eq_true, ite_true, disconnectDeep_after g _ h1, bind, Except.bind,
+    removeCp_after g _ c false hc h2, Except.map, childDel]
+
+/-- **`remove_child_interface`: the parent handle reports what a fresh lookup reports** (after the repairs). -/
+theorem removeChild_fresh (g : G) (h : List Nat) (p c : Nat) (hk : g.kind? p = some kDedicatedPort) (hc : g.has c = true)
+    (h1 : SepDiscSeq g [] (deepIfs g [c]) = true) (h2 : Sep g ((deepIfs g [c]).flatMap (discDel g)) c false = true)
+    (hp : (childDel g c).contains p = false) (hD : ∀ y ∈ freshIfs g p, y ∈ childDel g c ↔ y = c)
     (hh : ∀ y, y ∈ h ↔ y ∈ freshIfs g p) :
-    ∀ y, y ∈ h' ↔ y ∈ freshIfs g' p := by
-  unfold removeChild at hrun
-  split at hrun
-  · obtain ⟨g1, hg1, heq⟩ := map_ok hrun
-    simp only [Prod.mk.injEq] at heq
-    obtain ⟨rfl, rfl⟩ := heq
-    have hc : g.has c = true := by
-      unfold removeCp at hg1; split at hg1
-      · assumption
-      · cases hg1
-    rw [removeCp_minus g c false hc] at hg1
-    cases hg1
-    exact fresh_after_cpDel g p c false h (by simp [cpFamily]) hp hh
-  · cases hrun
+    ∃ g' h', removeChild g h p c = .ok (g', h') ∧ ∀ y, y ∈ h' ↔ y ∈ freshIfs g' p :=
+  ⟨_, _, removeChild_closed g h p c hk hc h1 h2, fresh_after_minus g p c _ h hp hD hh⟩
 
 theorem filter_ne_of_not_mem (h : List Nat) (p : Nat) (hp : p ∉ h) : ∀ y, y ∈ h.filter (fun z => z != p) ↔ y ∈ h := by
   intro y
